@@ -91,6 +91,7 @@ KIND_RE = {
     'struct': r'\bstruct\s+%s\b',
     'const': r'\bconst\s+%s\b',
     'macro': r'\bmacro_rules!\s+%s\b',
+    'trait': r'\btrait\s+%s\b',
 }
 
 
